@@ -841,6 +841,10 @@ pub fn run(rep: &mut Report) {
 		("generic enum owning named nodes, one instantiation", "programs_generic_enum_owning_nodes_once"),
 		("generic enum owning named nodes, two instantiations", "programs_generic_enum_owning_nodes_twice"),
 		("generic enum of T-dependent variants only", "programs_generic_enum_t_only"),
+		("raw identifier: unit-only enum", "programs_raw_ident_unit_enum"),
+		("raw identifier: union enum", "programs_raw_ident_union_variants"),
+		("raw identifier: type names", "programs_raw_ident_type_names"),
+		("raw identifier: field names", "programs_raw_ident_field_names"),
 	] {
 		rep.cover.count(counter, l.families.iter().filter(|f| f.origin.contains(marker)).count() as u64);
 	}
@@ -855,7 +859,7 @@ pub fn run(rep: &mut Report) {
 	rep.extra.insert("generated_workspace".into(), json!(gen_dir().display().to_string()));
 	let cfgs = c20_enum::grammar_cfgs(thorough);
 	rep.rule = format!(
-		"SAE over programs x values. Programs: ALL type-definition programs of the grammar (root = named struct of 1-3 fields | newtype struct | unit-only enum of 1|3 symbols | enum of 1-3 newtype variants with no / first / last unit variant `Null`; type expressions = leaf | Option | Vec | BTreeMap<String,_> | Box | new struct | new newtype struct | new unit-only enum | new union enum | generic G<T>{{a:T,b:Vec<T>}} | shared use of an earlier type | recursive use of an enclosing struct guarded by Option/Vec/Map + heap indirection; serde_bytes Vec<u8> / [u8;4] / Option<Vec<u8>> at field positions) enumerated by the odometer with {}; constraint-violating programs (Option of nullable, two variants on one branch, union in union) are rejected, not judged; plus {} hand-listed sweep programs beyond the bound (every leaf type i32 i64 u16 u32 u64 i8 i16 usize bool f32 f64 String () bytes [u8;0|1|4|16] in every position kind, Box/Rc/Arc/&str/&[u8], HashMap/BTreeMap, every logical-type attribute incl. implicit/bytes/fixed decimals and duration, name/namespace overrides incl. the empty namespace, same-named types in two modules, three generic shapes instantiated at all pairs of argument types, generic structs whose logical-typed field owns a named fixed at two instantiations, every logical attribute next to plain uses of its base type in both orders and one level down, both spellings of the logical names, logical type inferred from a type named Uuid, logical attributes over non-canonical field types which the derive substitutes (transparent newtypes, other integer widths restricted to the values the substituted Avro type can hold - beyond that range the pair is a no-verdict zone), const-generic structs at several N, generic newtype structs (plain, over Option<T>, with a logical type, owning a fixed) at two instantiations, skipped fields and variants of a type that implements neither BuildSchema nor Serialize, generic union enums `enum E<T>` with variants V4([u8;4]) .. O(T) (the T variant named after the branch of the first instantiation with serde aliases for the others) at one and at two instantiations, the namespace attribute (absent | ns1 | a.b | empty) on every kind of type that owns named sub-nodes, 19 recursion shapes incl. mutual recursion and recursion through union enums and generic arguments, wide records/enums/unions). Every program is one module of a generated crate compiled against the current derive crates. Values: exhaustive over leaf boundary sets, collections of 0-2 elements (all ordered pairs up to 32 element values, consecutive pairs above), HashMap 0-1 entries, recursion depth <= 2, full cartesian product of fields up to 4096 tuples (star product above), unsigned leaves up to the range of their Avro type. Oracle per program: schema() Ok twice with equal JSON and fingerprint; JSON resolves under the reference resolver (one definition per fullname, every defined fullname is a dot-separated sequence of [A-Za-z_][A-Za-z0-9_]* names, no dangling reference; leading-dot references to the null namespace accepted); number of record / enum definitions = number of distinct struct types or instantiations / unit-only enums reachable from the root (modulo the derive's documented lookup equivalence u16=i32, Box<T>=T ...). Per value: to_datum_vec Ok; the reference decoder consumes exactly the bytes and the datum denotes the described value under the DERIVED schema (field names, union branch by Avro name, enum symbol, decimal unscaled value; a position declared with a logical-type attribute carries exactly that logicalType in the schema, a position declared without one carries none); from_datum_slice::<T> returns a value equal by PartialEq and by description (float bits). Non-trivial: the program has >= 2 type definitions or the encoding has >= 2 bytes; distinct on (program, value index).",
+		"SAE over programs x values. Programs: ALL type-definition programs of the grammar (root = named struct of 1-3 fields | newtype struct | unit-only enum of 1|3 symbols | enum of 1-3 newtype variants with no / first / last unit variant `Null`; type expressions = leaf | Option | Vec | BTreeMap<String,_> | Box | new struct | new newtype struct | new unit-only enum | new union enum | generic G<T>{{a:T,b:Vec<T>}} | shared use of an earlier type | recursive use of an enclosing struct guarded by Option/Vec/Map + heap indirection; serde_bytes Vec<u8> / [u8;4] / Option<Vec<u8>> at field positions) enumerated by the odometer with {}; constraint-violating programs (Option of nullable, two variants on one branch, union in union) are rejected, not judged; plus {} hand-listed sweep programs beyond the bound (every leaf type i32 i64 u16 u32 u64 i8 i16 usize bool f32 f64 String () bytes [u8;0|1|4|16] in every position kind, Box/Rc/Arc/&str/&[u8], HashMap/BTreeMap, every logical-type attribute incl. implicit/bytes/fixed decimals and duration, name/namespace overrides incl. the empty namespace, same-named types in two modules, three generic shapes instantiated at all pairs of argument types, generic structs whose logical-typed field owns a named fixed at two instantiations, every logical attribute next to plain uses of its base type in both orders and one level down, both spellings of the logical names, logical type inferred from a type named Uuid, logical attributes over non-canonical field types which the derive substitutes (transparent newtypes, other integer widths restricted to the values the substituted Avro type can hold - beyond that range the pair is a no-verdict zone), const-generic structs at several N, generic newtype structs (plain, over Option<T>, with a logical type, owning a fixed) at two instantiations, skipped fields and variants of a type that implements neither BuildSchema nor Serialize, raw identifiers (r#type ...) as unit-enum symbols, union variant names, type names and field names (the schema / serde name is the identifier without r#), generic union enums `enum E<T>` with variants V4([u8;4]) .. O(T) (the T variant named after the branch of the first instantiation with serde aliases for the others) at one and at two instantiations, the namespace attribute (absent | ns1 | a.b | empty) on every kind of type that owns named sub-nodes, 19 recursion shapes incl. mutual recursion and recursion through union enums and generic arguments, wide records/enums/unions). Every program is one module of a generated crate compiled against the current derive crates. Values: exhaustive over leaf boundary sets, collections of 0-2 elements (all ordered pairs up to 32 element values, consecutive pairs above), HashMap 0-1 entries, recursion depth <= 2, full cartesian product of fields up to 4096 tuples (star product above), unsigned leaves up to the range of their Avro type. Oracle per program: schema() Ok twice with equal JSON and fingerprint; JSON resolves under the reference resolver (one definition per fullname, every defined fullname is a dot-separated sequence of [A-Za-z_][A-Za-z0-9_]* names, no dangling reference; leading-dot references to the null namespace accepted); number of record / enum definitions = number of distinct struct types or instantiations / unit-only enums reachable from the root (modulo the derive's documented lookup equivalence u16=i32, Box<T>=T ...). Per value: to_datum_vec Ok; the reference decoder consumes exactly the bytes and the datum denotes the described value under the DERIVED schema (field names, union branch by Avro name, enum symbol, decimal unscaled value; a position declared with a logical-type attribute carries exactly that logicalType in the schema, a position declared without one carries none); from_datum_slice::<T> returns a value equal by PartialEq and by description (float bits). Non-trivial: the program has >= 2 type definitions or the encoding has >= 2 bytes; distinct on (program, value index).",
 		cfgs.iter().map(|c| format!("<= {} nodes over the {} alphabet (leaves {:?}, field leaves {:?}, map {}, generic {})", c.max_nodes, c.label, c.leaves, c.field_leaves, c.map, c.generic)).collect::<Vec<_>>().join(" and "),
 		l.per_source.last().map_or(0, |s| s.1),
 	);
@@ -863,7 +867,7 @@ pub fn run(rep: &mut Report) {
 	rep.assumptions.push("the description of a value emitted by the generated Dom impls is the generator's own statement of the serde data model of the type (it shares no code with the derive crates)".into());
 	rep.assumptions.push("generic instantiations whose arguments share a schema node by the derive's documented lookup equivalence (u16 = i32, Box<T> = T, BTreeMap = HashMap) are counted as one instantiation".into());
 	// vacuity guards
-	for k in ["programs_inferred_uuid_from_type_name", "programs_logical_type_substitutes_field_type", "programs_const_generic", "programs_generic_newtype_struct", "programs_skipped_members", "programs_generic_owning_fixed", "programs_namespace_attribute", "programs_generic_enum_owning_nodes_once", "programs_generic_enum_owning_nodes_twice", "programs_generic_enum_t_only", "families_with_union_enum", "families_with_generic", "families_with_newtype_struct", "families_recursive", "schemas_valid", "values_round_tripped", "denotation_checked", "values_through_union_enum", "values_with_some"] {
+	for k in ["programs_inferred_uuid_from_type_name", "programs_logical_type_substitutes_field_type", "programs_const_generic", "programs_generic_newtype_struct", "programs_skipped_members", "programs_generic_owning_fixed", "programs_namespace_attribute", "programs_generic_enum_owning_nodes_once", "programs_generic_enum_owning_nodes_twice", "programs_generic_enum_t_only", "programs_raw_ident_unit_enum", "programs_raw_ident_union_variants", "programs_raw_ident_type_names", "programs_raw_ident_field_names", "families_with_union_enum", "families_with_generic", "families_with_newtype_struct", "families_recursive", "schemas_valid", "values_round_tripped", "denotation_checked", "values_through_union_enum", "values_with_some"] {
 		if rep.cover.counters.get(k).copied().unwrap_or(0) == 0 {
 			machinery(&format!("vacuity guard: counter {k} is 0 — a behaviour the check relies on was never exercised"));
 		}
